@@ -2,6 +2,8 @@
 C01 — Bus access respects the PROFIBUS idle times (station-level obligations).
 -/
 import ProfiVerif.Model.Station
+import ProfiVerif.Lemmas.StationWho
+import ProfiVerif.Lemmas.StationMark
 
 namespace PV.C01
 open PV
@@ -65,5 +67,62 @@ theorem claim_staggered (p : Params) (hr : 0 < p.rate) :
     omega
   rw [h1]
   exact div_stagger _ _ _ hr
+
+/-- `tx_needs_idle` (every poll, every state, every input): whenever a `poll` call hands a telegram
+to the PHY, (1) the PHY was not transmitting, (2) no bus activity was newly registered in this very
+poll (the receive buffer holds no more bytes than already accounted for), and (3) more than the
+synchronisation pause of 33 bit times has passed since the last bus activity the station had
+registered — which, after an own transmission, is the predicted end of that transmission
+(`markTx`).  No hypothesis on the state: it holds from every state, reachable or not. -/
+theorem tx_needs_idle (s : Station) (apps : Apps) (now : Int) (phyTx : Bool) (rx : Bytes) (c' : Ctx)
+    (h : s.poll apps now phyTx rx = .ok c') (ht : c'.tx ≠ none) :
+    phyTx = false ∧ rx.length ≤ s.pendingBytes ∧
+      ∀ l, s.lastBusActivity = some l → l + (s.p.bits 33 : Nat) < now :=
+  pollInner_tx { s := s, apps := apps, rx := rx } now phyTx c' h rfl ht
+
+/-- `who_may_transmit` (every poll, every state, every input): what a `poll` call hands to the PHY
+is determined by the FDL state at the start of the call —
+* `Offline`/`ListenToken`/`ActiveIdle` (no token): only the self-addressed claim token, and only when
+  the measured silence has reached the station's own time-out, or the FDL status reply to the station
+  whose request addressed to this station was registered (`statusReq = some src`), sent to `src`;
+* `ClaimToken`: the self-addressed token or a GAP poll (status request from the own address);
+* `UseToken`/`AwaitDataResponse` (token holder): only a telegram an application handed over in a
+  `transmit_telegram` call of this poll or earlier (recorded in `calls`);
+* `PassToken`: the token with the own source address, or (with GAP maintenance due) a GAP poll;
+* `CheckTokenPass`/`AwaitStatusResponse`: only a token with the own source address (the retry of the
+  own pass, or the pass after an unanswered GAP poll). -/
+theorem who_may_transmit (s : Station) (apps : Apps) (now : Int) (phyTx : Bool) (rx : Bytes) (c' : Ctx)
+    (b : Bytes) (h : s.poll apps now phyTx rx = .ok c') (hb : c'.tx = some b) :
+    Allowed s now c'.calls b :=
+  pollInner_who { s := s, apps := apps, rx := rx } now phyTx c' b h rfl hb
+
+/-- `tx_marks_busy` (every poll, every state, every input): after a `poll` call that handed the telegram
+`b` to the PHY, the station's bus-activity stamp is the predicted end of that transmission,
+`now + 11·|b|` bit times — whichever handler transmitted.  Together with `tx_needs_idle` and
+`tx_not_while_transmitting`: after an own transmission the station does nothing before its predicted end
+and initiates nothing within 33 bit times after it. -/
+theorem tx_marks_busy (s : Station) (apps : Apps) (now : Int) (phyTx : Bool) (rx : Bytes) (c' : Ctx) (b : Bytes)
+    (h : s.poll apps now phyTx rx = .ok c') (hb : c'.tx = some b) :
+    c'.s.lastBusActivity = some (now + (c'.s.p.bits (11 * b.length) : Nat)) :=
+  pollInner_marks { s := s, apps := apps, rx := rx } now phyTx c' b h rfl hb
+
+/-- A listening station that has registered no request never sends anything but its claim. -/
+theorem listener_only_claims (s : Station) (apps : Apps) (now : Int) (phyTx : Bool) (rx : Bytes) (c' : Ctx)
+    (b : Bytes) (coll : Nat) (hst : s.st = .listenToken none coll)
+    (h : s.poll apps now phyTx rx = .ok c') (hb : c'.tx = some b) :
+    SilenceExpired s now ∧ b = selfToken s.p.address := by
+  have := who_may_transmit s apps now phyTx rx c' b h hb
+  simp only [Allowed, hst] at this
+  rcases this with h1 | ⟨src, h1, _⟩
+  · exact h1
+  · cases h1
+
+/-! Non-vacuity: a concrete station (address 3, alone in its ring, holding the token in `PassToken`,
+last activity at 0) does transmit at `now = 1000` — the hypotheses of the two theorems are met. -/
+def pEx : Params :=
+  { address := 3, rate := 500000, slotBits := 200, ttrBits := 10000, gapWait := 1, hsa := 10, maxRetry := 1, minTsdrBits := 11 }
+def sEx : Station :=
+  { (Station.new pEx) with online := true, st := .passToken false .first, lastBusActivity := some 0 }
+example : ∃ c', sEx.poll [] 1000 false [] = .ok c' ∧ c'.tx = some [0xDC, 3, 3] := ⟨_, rfl, rfl⟩
 
 end PV.C01
